@@ -152,7 +152,7 @@ for name,f,a,b,det,sil in M:
     open(os.path.join(OUT,name+".patch"),"w").write(d)
     idx.append(dict(name=name,patch="mutants/"+name+".patch",detected_by=det,silent=sil))
 # reverse patches of the fix commits and the FFI flag swap
-for n,det in [("unfix-zero_total_padding",["C02","C07","C05"]),("unfix-global_counterzero_guard",["C08","C10","C05"]),("unfix-double_signal_all",["C09","C05"]),("unfix-leftover_signal",["C09","C05"]),("unfix-nan_validation",["C12"]),("unfix-single_read",["C11"]),("unfix-pps_division",["C19"]),("unfix-zero_duration_timer",["C18"]),("ffi-swap-flags",["C20"]),("fw-global-padding-count-thread-local",["C05"])]:
+for n,det in [("unfix-zero_total_padding",["C02","C07","C05"]),("unfix-global_counterzero_guard",["C08","C10","C05"]),("unfix-double_signal_all",["C09","C05"]),("unfix-leftover_signal",["C09","C05"]),("unfix-nan_validation",["C12"]),("unfix-single_read",["C11"]),("unfix-pps_division",["C19"]),("unfix-zero_duration_timer",["C18"]),("unfix-stale_pending_action",["C08","C05"]),("unfix-div_duration_rounding",["C03"]),("ffi-swap-flags",["C20"]),("fw-global-padding-count-thread-local",["C05"])]:
     idx.append(dict(name=n,patch="mutants/"+n+".patch",detected_by=det,silent=[]))
 json.dump(idx,open(existing,"w"),indent=1)
 print(len(idx),"mutants indexed")
